@@ -340,12 +340,22 @@ func typeAssert(n *node, withResult, withOk bool) {
 	c0, c1 := n.child[0], n.child[1]
 	value := genValue(c0) // input value
 	var value0, value1 func(*frame) reflect.Value
+	var setEntry, setOk func(*frame, reflect.Value)
 	setStatus := false
 	switch {
 	case withResult && withOk:
 		value0 = genValue(n.anc.child[0])       // returned result
 		value1 = genValue(n.anc.child[1])       // returned status
 		setStatus = n.anc.child[1].ident != "_" // do not assign status to "_"
+		if isMapEntry(n.anc.child[0]) {
+			// A map entry is not addressable: the result is computed in the frame
+			// entry of the assertion and set in the map at the end.
+			value0 = genValue(n)
+			setEntry = setter(n.anc.child[0])
+		}
+		if isMapEntry(n.anc.child[1]) {
+			setOk = setter(n.anc.child[1])
+		}
 	case withResult && !withOk:
 		value0 = genValue(n) // returned result
 	case !withResult && withOk:
@@ -356,13 +366,19 @@ func typeAssert(n *node, withResult, withOk bool) {
 	// done ends an assertion of the form v, ok = x.(T): it sets ok, and v to its
 	// zero value when the assertion failed.
 	done := func(f *frame, ok *bool) {
-		if setStatus {
+		switch {
+		case setOk != nil:
+			setOk(f, reflect.ValueOf(*ok))
+		case setStatus:
 			value1(f).SetBool(*ok)
 		}
 		if !*ok && withResult {
 			if v := value0(f); v.CanSet() {
 				v.Set(reflect.Zero(v.Type()))
 			}
+		}
+		if setEntry != nil {
+			setEntry(f, value0(f))
 		}
 	}
 
@@ -688,6 +704,36 @@ func convert(n *node) {
 }
 
 // assignFromCall assigns values from a function call.
+// setter returns a function assigning a value to the variable, element or map
+// entry n, on the left of an assignment whose right side gives several values.
+// A map entry is not addressable: it is set in its map.
+func setter(n *node) func(*frame, reflect.Value) {
+	if isMapEntry(n) {
+		m, typ := genValue(n.child[0]), n.typ.TypeOf()
+		var key func(*frame) reflect.Value
+		if isInterfaceSrc(n.child[1].typ) {
+			key = genValueInterface(n.child[1])
+		} else {
+			key = genValue(n.child[1])
+		}
+		return func(f *frame, v reflect.Value) {
+			if v.Type() != typ && v.Type().ConvertibleTo(typ) && typ.Kind() != reflect.Interface {
+				v = v.Convert(typ)
+			}
+			m(f).SetMapIndex(key(f), v)
+		}
+	}
+	dest := genValue(n)
+	return func(f *frame, v reflect.Value) {
+		d := dest(f)
+		if v.Kind() == reflect.Bool && d.Kind() == reflect.Bool {
+			d.SetBool(v.Bool()) // The status may be of a defined boolean type.
+			return
+		}
+		d.Set(v)
+	}
+}
+
 func assignFromCall(n *node) {
 	ncall := n.lastChild()
 	l := len(n.child) - 1
@@ -696,11 +742,15 @@ func assignFromCall(n *node) {
 		l--
 	}
 	dvalue := make([]func(*frame) reflect.Value, l)
+	mvalue := make([]func(*frame, reflect.Value), l)
 	for i := range dvalue {
 		if n.child[i].ident == "_" {
 			continue
 		}
 		dvalue[i] = genValue(n.child[i])
+		if isMapEntry(n.child[i]) {
+			mvalue[i] = setter(n.child[i])
+		}
 	}
 	// A result of concrete type assigned to a variable of interface type is
 	// wrapped as in a single assignment, so that its type and methods are retained.
@@ -724,6 +774,10 @@ func assignFromCall(n *node) {
 			s := f.data[ncall.findex+i]
 			if svalue[i] != nil {
 				s = svalue[i](f)
+			}
+			if mvalue[i] != nil {
+				mvalue[i](f, s)
+				continue
 			}
 			c := n.child[i]
 			if n.kind == defineXStmt && !c.redeclared {
@@ -2022,9 +2076,9 @@ func getIndexMap(n *node) {
 
 // getIndexMap2 retrieves map value from index and set status.
 func getIndexMap2(n *node) {
-	dest := genValue(n.anc.child[0])   // result
-	value0 := genValue(n.child[0])     // map
-	value2 := genValue(n.anc.child[1]) // status
+	setDest := setter(n.anc.child[0])   // result
+	value0 := genValue(n.child[0])      // map
+	setStatus := setter(n.anc.child[1]) // status
 	next := getExec(n.tnext)
 	doValue := n.anc.child[0].ident != "_"
 	doStatus := n.anc.child[1].ident != "_"
@@ -2040,19 +2094,19 @@ func getIndexMap2(n *node) {
 		case !doValue:
 			n.exec = func(f *frame) bltn {
 				v := value0(f).MapIndex(mi)
-				value2(f).SetBool(v.IsValid())
+				setStatus(f, reflect.ValueOf(v.IsValid()))
 				return next
 			}
 		default:
 			n.exec = func(f *frame) bltn {
 				v := value0(f).MapIndex(mi)
 				if v.IsValid() {
-					dest(f).Set(v)
+					setDest(f, v)
 				} else {
-					dest(f).Set(z)
+					setDest(f, z)
 				}
 				if doStatus {
-					value2(f).SetBool(v.IsValid())
+					setStatus(f, reflect.ValueOf(v.IsValid()))
 				}
 				return next
 			}
@@ -2063,19 +2117,19 @@ func getIndexMap2(n *node) {
 		case !doValue:
 			n.exec = func(f *frame) bltn {
 				v := value0(f).MapIndex(value1(f))
-				value2(f).SetBool(v.IsValid())
+				setStatus(f, reflect.ValueOf(v.IsValid()))
 				return next
 			}
 		default:
 			n.exec = func(f *frame) bltn {
 				v := value0(f).MapIndex(value1(f))
 				if v.IsValid() {
-					dest(f).Set(v)
+					setDest(f, v)
 				} else {
-					dest(f).Set(z)
+					setDest(f, z)
 				}
 				if doStatus {
-					value2(f).SetBool(v.IsValid())
+					setStatus(f, reflect.ValueOf(v.IsValid()))
 				}
 				return next
 			}
@@ -4028,18 +4082,18 @@ func recv(n *node) {
 
 func recv2(n *node) {
 	vchan := genValue(n.child[0])    // chan
-	vres := genValue(n.anc.child[0]) // result
-	vok := genValue(n.anc.child[1])  // status
+	setRes := setter(n.anc.child[0]) // result
+	setOk := setter(n.anc.child[1])  // status
 	tnext := getExec(n.tnext)
 
 	if n.interp.cancelChan {
 		// Cancellable channel read
 		n.exec = func(f *frame) bltn {
-			ch, result, status := vchan(f), vres(f), vok(f)
+			ch := vchan(f)
 			//  Fast: channel read doesn't block
 			if v, ok := ch.TryRecv(); ok {
-				result.Set(v)
-				status.SetBool(true)
+				setRes(f, v)
+				setOk(f, reflect.ValueOf(true))
 				return tnext
 			}
 			// Slow: channel is blocked, allow cancel
@@ -4051,16 +4105,16 @@ func recv2(n *node) {
 			if chosen == 0 {
 				return nil
 			}
-			result.Set(v)
-			status.SetBool(ok)
+			setRes(f, v)
+			setOk(f, reflect.ValueOf(ok))
 			return tnext
 		}
 	} else {
 		// Blocking channel read (less overhead)
 		n.exec = func(f *frame) bltn {
 			v, ok := vchan(f).Recv()
-			vres(f).Set(v)
-			vok(f).SetBool(ok)
+			setRes(f, v)
+			setOk(f, reflect.ValueOf(ok))
 			return tnext
 		}
 	}
